@@ -133,6 +133,8 @@ from pyvc import tables as _tables, detcheck as _detcheck, hashcheck as _hashche
 from .logger_contracts import LOGGER_C17, LOGGER_SIDECARS
 PLAN["C12"]["extra"] = [_importcheck.check, _importcheck.check_reserve, _importcheck.check_current_file]
 PLAN["C11"]["extra"] = [_importcheck.check_layout_pass]
+from pyvc import bindcheck as _bindcheck
+PLAN["C09"]["extra"] = [_bindcheck.check]
 PLAN["C11"]["level_text"] = ("SMT-discharged contracts (pyvc/z3, real source re-read on every run) for Parser.check_alignment and validate_msg_def - see the explanation below - plus one contract decided "
                             "by a syntactic path analysis, not by SMT (by_backend 'dataflow' in the evidence): every normal exit of Parser.add_fields, the field-list-reuse branch included, is preceded "
                             "by validate_msg_def, so every definition goes through the verified layout pass; it has a replay on the real parser. " + PLAN["C11"]["explanation"])
